@@ -1,0 +1,23 @@
+//go:build verif
+
+package client
+
+import "sync/atomic"
+
+var verifYieldFn atomic.Pointer[func(string)]
+
+// SetVerifYield installs a callback invoked at the verification yield points of this package
+// (nil removes it). Only present in builds with -tags verif.
+func SetVerifYield(f func(point string)) {
+	if f == nil {
+		verifYieldFn.Store(nil)
+		return
+	}
+	verifYieldFn.Store(&f)
+}
+
+func verifYield(point string) {
+	if f := verifYieldFn.Load(); f != nil {
+		(*f)(point)
+	}
+}
